@@ -54,16 +54,20 @@ Section WithCtx.
     unfold decompress_all. apply bind_nc; [intros; apply decompress_lazy_nc|]. intros [p fl] k'. destruct fl; congruence.
   Qed.
 
+  Lemma walk_entries_nc rec lo r : (forall o l a k, rec o l a <> Crash k) ->
+    forall es acc k, walk_entries rec lo r es acc <> Crash k.
+  Proof.
+    intros Hrec. induction es as [|e rest IH]; intros acc k; cbn [walk_entries]; [congruence|].
+    destruct (e_run e =? 0); [|apply IH].
+    destruct (range_end_inc r <? e_id e); [apply IH|].
+    apply bind_nc; [intros; apply cadd64_no_crash|]. intros lo' k2.
+    apply bind_nc; [intros; apply Hrec|]. intros acc' k3. apply IH.
+  Qed.
   Lemma read_dir_rec_no_crash fuel : forall c img o l lo r acc k, read_dir_rec cx fuel c img o l lo r acc <> Crash k.
   Proof.
     induction fuel as [|f IH]; intros c img o l lo r acc k; cbn [read_dir_rec]; [congruence|].
     apply bind_nc; [intros; apply dir_decode_no_crash|]. intros es k'.
-    revert k'. generalize acc. induction es as [|e rest IHes]; intros acc0 k'; [congruence|].
-    destruct (e_run e =? 0).
-    - destruct (range_end_inc r <? e_id e); [apply IHes|].
-      apply bind_nc; [intros; apply cadd64_no_crash|]. intros lo' k2.
-      apply bind_nc; [intros; apply IH|]. intros acc' k3. apply IHes.
-    - apply IHes.
+    apply walk_entries_nc. intros. apply IH.
   Qed.
   Theorem read_directories_no_crash c img ro rl lo r k : read_directories cx c img ro rl lo r <> Crash k.
   Proof. apply read_dir_rec_no_crash. Qed.
